@@ -4,6 +4,10 @@ import json, subprocess
 
 # id -> (technique, level text, level note, design ref)
 CHECKS = {
+ "C02": ("totality monitor: panic capture, worker-death attribution (child processes with journalled cases), goroutine census and progress watchdog over generated, truncated, mutated and structurally broken sources x 12 delimiter configurations",
+         "Exploration: every ordered pair of a 96-token dictionary inside an action (tight and spaced), valid generated templates using every construct, truncations, token/byte mutations, delimiter noise, structural breaks that must be reported, and reference sets (missing/broken/transitively broken/cyclic extends and imports) are parsed through Set.Parse and Set.GetTemplate in child processes. The monitor observes return values, escaped panics, process death (a panic in the lexer goroutine cannot be recovered), goroutines left behind, error positions and elapsed progress.",
+         "Hang = no return within 30 s for a source <= 8 KiB; leak = goroutine still present 200 ms after return. Cyclic extends/import is a recorded known finding (stack overflow).",
+         "DESIGN.md 3/C02"),
  "C03": ("runtime output monitor: segment-model oracle over generated templates (exhaustive 3-segment windows x 12 delimiter configurations, then random)",
          "Exploration: every ordered triple of 8 segment shapes (text with/without edge whitespace, whitespace-only text, comment, action with each trim-marker combination) is executed under 12 delimiter configurations, followed by random longer templates with nested if/range and import headers; the real output is compared byte for byte with an independent segment model. Held means: no divergence on the executions observed.",
          "Trusts the segment model (a 60-line interpreter) and that the handful of actions used (string literal, :=, if true/false, range ints, import) behave as modelled; cases whose segmentation an independent scanner cannot recover, and header shapes the statement leaves open, are discarded and counted.",
